@@ -123,6 +123,8 @@ def attribute(ev, cl, tags, trace):
         if ev.get("which") == "hash":
             return lineage & {"C08"}
         return {"C06"} | lineage
+    if op in ("View", "CatView", "Grid2D"):
+        return {"C06"} if cl in ("frame", "noshare") else {"C13"}
     if op == "Doc":
         return {"C06"} if cl in ("frame", "noshare") else {"C04"} | lineage
     if op == "FromDoc":
